@@ -221,7 +221,7 @@ class Main(Suite):
     name = "main"
     go_cmd = "c16"
     coq_imports = "From GoGit Require Import Model.RefCAS."
-    quick_n = 480
+    quick_n = 400
     thorough_n = 6000
     coq_chunk = 60
 
@@ -291,6 +291,8 @@ class Main(Suite):
                 why = "symbolic-cas"
             else:
                 why = "cas-not-linearizable"
+            if c["id"] not in self.agree:
+                why = "not-linearizable (and not the behaviour of the pristine model; nearest class %s)" % why
             fails[c["id"]] = "%s: history %s, sequential read afterwards %s, initial %s" % (
                 why, [(o["kind"], o["old"], o["new"], o["res"], o["first"], o["last"]) for o in ops], final, init)
         return fails
